@@ -443,12 +443,13 @@ func runWrap(seed int64, n int) {
 		return
 	}
 	var wg sync.WaitGroup
-	var failed atomic.Int64
+	var failed, passed atomic.Int64
+	var stop atomic.Bool
 	for w := 0; w < 4; w++ {
 		wg.Add(1)
 		go func() {
 			defer wg.Done()
-			for i := 0; i < n/4; i++ {
+			for i := 0; i < n/4 && !stop.Load(); i++ {
 				seq := int(seqCounter.Add(1))
 				c := &callRec{seq: seq, id: uint16(seq), tokens: map[string]bool{}}
 				r.mu.Lock()
@@ -459,7 +460,15 @@ func runWrap(seed int64, n int) {
 				cancel()
 				if err != nil {
 					failed.Add(1)
+					c.mu.Lock()
+					tk := c.consumedTk
+					c.mu.Unlock()
+					if tk != "" && !stop.Swap(true) {
+						rep.Violation("reply-lost-past-wire-id-wrap", fmt.Sprintf("exchange #%d on one connection: the reader consumed its reply (%s) at once, seconds before the deadline, but the call returned error %q", i*4, tk, err.Error()),
+							map[string]any{"scenario": "sequential exchanges on one datagram connection past 65536", "call_seq": seq, "exchanges_before": passed.Load()})
+					}
 				} else {
+					passed.Add(1)
 					pool.ReleaseBuf(rb)
 				}
 				r.mu.Lock()
@@ -469,6 +478,11 @@ func runWrap(seed int64, n int) {
 		}()
 	}
 	wg.Wait()
+	if stop.Load() {
+		hcancel()
+		<-done
+		return
+	}
 	rep.Eval(1)
 	// now the held query's reply arrives (to its first transmission and every resend)
 	r.mu.Lock()
@@ -664,6 +678,7 @@ func main() {
 	runtime.GOMAXPROCS(16)
 	runWrap(rep.Seed, 66000)
 	runStaleIdle(rep.Seed, rep.Pick(6, 40))
+	realUpstreamReplies(rep.Seed, rep.Pick(160, 1600))
 	poolsan.Sweep()
 	rep.Count("cells", int64(cells))
 	for name, n := range sched.Counts() {
